@@ -341,14 +341,20 @@ def scope_chain_rule(ctx, rid, core):
         if f is None or f.get("body") is None:
             ctx.inst(rid, "Environment::%s#parent-step" % nm, None, "function not found", None)
             continue
-        steps = [x for x in H.walk(f["body"]) if H.kind(x) == "MethodCall" and (x.get("def") or "").startswith("blots_core::environment::Environment::")
-                 and any(H.kind(y) == "Path" and (H.path_local(y) == "parent") or (H.kind(y) == "Field" and y.get("name") == "parent") for y in H.walk(x["recv"]))]
-        loops = [x for x in H.walk(f["body"]) if H.kind(x) in ("Loop", "While", "For")]
-        if not steps:
-            ctx.inst(rid, "Environment::%s#parent-step" % nm, None if loops else False, "no call on the parent scope found%s" % (" (an explicit loop: not modelled)" if loops else ": only the local scope is consulted"), H.loc(f["body"]))
-            continue
-        other = sorted({H.last(x["def"]) for x in steps if x["def"] != d})
-        ctx.inst(rid, "Environment::%s#parent-step" % nm, not other, "the parent is asked through %s%s" % (sorted({H.last(x["def"]) for x in steps}), "" if not other else ": %s does not continue up the chain the way %s does" % (other, nm)), H.loc(steps[0]))
+        LOOKUPS = ("get", "contains_key", "contains_key_local")
+        calls = [x for x in H.walk(f["body"]) if H.kind(x) == "MethodCall" and (x.get("def") or "").startswith("blots_core::environment::Environment::") and H.last(x["def"]) in LOOKUPS
+                 and H.path_local(H.strip(x["recv"])) != "self"]
+        rec = [x for x in calls if x["def"] == d]
+        other = sorted({H.last(x["def"]) for x in calls if x["def"] != d})
+        mentions_parent = any(H.kind(y) == "Field" and y.get("name") == "parent" for y in H.walk(f["body"]))
+        if rec:
+            ctx.inst(rid, "Environment::%s#parent-step" % nm, True, "the enclosing scope is asked through %s itself" % nm, H.loc(rec[0]))
+        elif other:
+            ctx.inst(rid, "Environment::%s#parent-step" % nm, False, "the enclosing scope is asked through %s, which does not continue up the chain the way %s does" % (other, nm), H.loc(calls[0]))
+        elif not mentions_parent:
+            ctx.inst(rid, "Environment::%s#parent-step" % nm, False, "the enclosing scope is never consulted", H.loc(f["body"]))
+        else:
+            ctx.inst(rid, "Environment::%s#parent-step" % nm, None, "the walk over the enclosing scopes is not a call of %s on the parent (a loop or a helper: not modelled)" % nm, H.loc(f["body"]))
 
 
 def fresh_child_scopes(ctx, rid, core, cg, doc=None):
